@@ -88,7 +88,7 @@ DECL_PARAMS = {
     'sd': [0, 1],                    # standalone="yes" after the encoding
     'trailer': [0, 1],               # an element with an "encoding" attribute and a later processing instruction
 }
-DECL_ENC_Q = [None, 'utf-8', 'iso-8859-1', 'ISO-8859-1']
+DECL_ENC_Q = [None, 'utf-8', 'iso-8859-1', 'ISO-8859-1', 'ISO_8859-15']  # (the last one: the spelling of the underscore transport charset)
 DECL_ENC_T = DECL_ENC_Q + ['UTF-8', 'us-ascii']
 DECL_DEFAULT = {k: v[0] for k, v in DECL_PARAMS.items()}
 
@@ -104,7 +104,7 @@ META_PARAMS = {
     'second': [0, 1],                                            # a second, contradicting Content-Type meta after it
     'pre': [0, 1],                                               # a <meta name=...> whose content mentions a charset before it
 }
-META_CS = ['utf-8', 'iso-8859-1', 'ISO-8859-1', None]            # None = Content-Type meta without charset
+META_CS = ['utf-8', 'iso-8859-1', 'ISO-8859-1', 'ISO_8859-15', None]            # None = Content-Type meta without charset
 META_DEFAULT = {k: v[0] for k, v in META_PARAMS.items()}
 
 SNIFF_CLASSES_Q = [0x00, 0xFE, 0xFF, 0xEF, 0xBB, 0xBF, 0x3C, 0x61]
@@ -391,6 +391,9 @@ def judge_table(case, res=None):
     ]
     if sym:
         out.append(('C20.sources', ','.join(sym), [exp['http'], exp['xml'], exp['meta']], [http, xml, meta]))
+    elif http is not None and exp['http'] is not None and http != exp['http']:
+        # the transport charset is reported as it was sent, lower-cased: not as another name of the same codec
+        out.append(('C20.sources', 'http:respelled', exp['http'], http))
     # precedence over the reported sources
     e_enc, rung = ref.precedence(klass, http, xml, meta)
     if not ref.same(e_enc, enc):
